@@ -44,6 +44,9 @@ type c19In struct {
 	Not      bool   `json:"not,omitempty"`
 	Must     bool   `json:"must,omitempty"`
 	Mark     uint32 `json:"mark,omitempty"`
+	KeyHex   string   `json:"keyhex,omitempty"` // raw conn_state_map key as the kernel wrote it
+	ValHex   string   `json:"valhex,omitempty"` // raw conn_state_map value as the kernel wrote it
+	Ages     []uint64 `json:"ages,omitempty"`   // ns after the entry's last_seen_ns at which the janitor sweeps
 }
 
 type c19Leaf struct {
@@ -66,6 +69,8 @@ type c19Out struct {
 	Hex     string            `json:"hex,omitempty"`
 	Key     *uint32           `json:"key,omitempty"`
 	Keys    []string          `json:"keys,omitempty"`
+	Deleted []bool            `json:"deleted,omitempty"`
+	State   *uint8            `json:"state,omitempty"`
 	Err     string            `json:"err,omitempty"`
 }
 
@@ -210,6 +215,26 @@ func c19Run(in c19In) (out c19Out) {
 			out.Keys = append(out.Keys, c19Mem(&kk))
 		}
 		sort.Strings(out.Keys)
+	case "janitor":
+		// the selection loop of ControlPlane.cleanupConnStateMapBeforeLocked (lifted source text: c19JanitorSelect) on the
+		// bytes the kernel code wrote into conn_state_map
+		kb, err1 := hex.DecodeString(in.KeyHex)
+		vb, err2 := hex.DecodeString(in.ValHex)
+		var key bpfTuplesKey
+		var val bpfConnState
+		if err1 != nil || err2 != nil || len(kb) != int(unsafe.Sizeof(key)) || len(vb) != int(unsafe.Sizeof(val)) {
+			return c19Out{Err: fmt.Sprintf("kernel key/value image has %d/%d bytes, Go types have %d/%d", len(kb), len(vb), unsafe.Sizeof(key), unsafe.Sizeof(val))}
+		}
+		copy(unsafe.Slice((*byte)(unsafe.Pointer(&key)), unsafe.Sizeof(key)), kb)
+		copy(unsafe.Slice((*byte)(unsafe.Pointer(&val)), unsafe.Sizeof(val)), vb)
+		st := val.State
+		out.State = &st
+		out.Deleted = []bool{}
+		for _, age := range in.Ages {
+			c19Clock = int64(val.LastSeenNs + age)
+			udpDel, tcpDel, _, _ := c19JanitorSelect(false, 0, []bpfTuplesKey{key}, []bpfConnState{val})
+			out.Deleted = append(out.Deleted, len(udpDel)+len(tcpDel) > 0)
+		}
 	case "mackey":
 		// mac(...) rule: the prefixes addSourceMac registers, turned into LPM keys by the real cidrToBpfLpmKey
 		raw, _ := hex.DecodeString(in.Pname)
